@@ -18,6 +18,28 @@ class Timeout(Exception):
     pass
 
 
+class DocTimeout(BaseException):
+    """the work on one document (implementation + oracle evaluation) exceeds its CPU budget"""
+
+
+def _prof(signum, frame):
+    raise DocTimeout()
+
+
+class doc_guard:
+    """CPU-time budget for everything done with one document (SIGPROF, independent of the SIGALRM limit around normalize)"""
+    def __init__(self, seconds):
+        self.seconds = seconds
+
+    def __enter__(self):
+        signal.signal(signal.SIGPROF, _prof)
+        signal.setitimer(signal.ITIMER_PROF, self.seconds)
+
+    def __exit__(self, *a):
+        signal.setitimer(signal.ITIMER_PROF, 0)
+        return False
+
+
 def _alarm(signum, frame):
     raise Timeout()
 
@@ -399,7 +421,10 @@ def run(pid, tier):
     orc = random.Random(ck.seed + 99)
 
     def body():
-        for (d, full, dup), m in zip(meta, model):
+        def one_doc(d, full, dup, m):
+            if hist.get("implementation_timeouts", 0) >= 12:
+                hist["skipped_after_repeated_timeouts"] = hist.get("skipped_after_repeated_timeouts", 0) + 1
+                return
             txt = json.dumps(d)
             ck.count(txt + str(full), len(txt) > 30)
             hist["with_ref"] += '"$ref"' in txt
@@ -411,6 +436,8 @@ def run(pid, tier):
                 impl = "norm=" + err
                 same = impl == m or (err in ("timeout", "fuel") and m in ("norm=fuel", "error=timeout"))
                 hist["diverges"] += err in ("timeout", "fuel")
+                if err == "timeout" and m.startswith("norm=ok:"):
+                    hist["implementation_timeouts"] = hist.get("implementation_timeouts", 0) + 1
             else:
                 same = False
                 if m.startswith("norm=ok:"):
@@ -467,12 +494,18 @@ def run(pid, tier):
                 hist["recursive"] += '"$ref"' in txt
                 for sig, what in oracle_c16(d, full, dup):
                     ck.violation(sig, what, {"stream": "N", "schema": d, "full_merge": full, "detect_duplicates": dup})
+        for (d, full, dup), m in zip(meta, model):
+            try:
+                with doc_guard(60):
+                    one_doc(d, full, dup, m)
+            except DocTimeout:
+                hist["gave_up_on_document"] = hist.get("gave_up_on_document", 0) + 1
     import sys
     sys.setrecursionlimit(2500)
     try:
-        body()
         if pid == "C06":
             fragment_part(ck, random.Random(ck.seed * 31 + 5), hist, tier)
+        body()
     finally:
         J.uninstall_ordered_sets()
     ck.sample({"schema": docs[0]})
@@ -511,7 +544,30 @@ def run(pid, tier):
 FRAG_TYPES = ["number", "boolean", "string", "null", "object", "array"]
 
 
+def gen_exclusions(rng):
+    """conjunctions and alternatives of excluded values: the negated-enum lists of several alternatives meet in one
+    cross product (what one alternative excludes must not leak into its siblings)"""
+    pool = [0, 1, 2, 3, 5, 7, "a", "ab", True, None]
+    rng.shuffle(pool)
+    vals = iter(pool)
+
+    def N():
+        k = rng.choice([1, 1, 2])
+        return {"not": {"enum": [next(vals) for _ in range(k)]}}
+    alts = {"anyOf": [N() for _ in range(rng.choice([2, 2, 3]))]}
+    if rng.random() < 0.5:
+        alts["type"] = rng.choice(["number", ["number", "string"], ["number", "null", "boolean"]])
+    parts = [N(), alts]
+    if rng.random() < 0.4:
+        parts.append({"minimum": rng.choice([0, 1, 2])})
+    if rng.random() < 0.3:
+        parts.reverse()
+    return {"allOf": parts}
+
+
 def gen_fragment(rng, depth):
+    if depth >= 3 and rng.random() < 0.12:
+        return gen_exclusions(rng)
     if depth <= 1 or rng.random() < 0.08:
         if rng.random() < 0.25:
             return rng.random() < 0.6
@@ -532,11 +588,16 @@ def gen_fragment(rng, depth):
         else:
             d[k] = rng.choice([-2, 0, 1, 3, 5, 7, 10])
     if depth > 1:
+        def member():
+            # excluded values meet each other in conjunctions and cross products
+            if rng.random() < 0.3:
+                return {"not": {"enum": rng.sample([0, 1, 2, 3, 5, "a", "ab", True, None], rng.choice([1, 1, 2]))}}
+            return gen_fragment(rng, depth - 1)
         for k in ("allOf", "anyOf"):
             if rng.random() < 0.45:
-                d[k] = [gen_fragment(rng, depth - 1) for _ in range(rng.choice([1, 2, 2, 3]))]
+                d[k] = [member() for _ in range(rng.choice([1, 2, 2, 3]))]
         if rng.random() < 0.45:
-            d["not"] = gen_fragment(rng, depth - 1)
+            d["not"] = member() if rng.random() < 0.5 else gen_fragment(rng, depth - 1)
     return d
 
 
@@ -572,18 +633,18 @@ def fragment_part(ck, rng, hist, tier):
     model = run_driver(lines)
     fh = {"documents": len(docs), "instances": 0, "in_fragment_by_the_model": 0, "with_not": 0, "with_anyOf_or_allOf": 0,
           "normalize_raises_library_exception": 0, "accepted_verdicts": 0, "rejected_verdicts": 0}
-    for (d, xs), m in zip(meta, model):
+    def one_fragment_doc(d, xs, m):
         txt = json.dumps(d)
         fh["with_not"] += '"not"' in txt
         fh["with_anyOf_or_allOf"] += ('"anyOf"' in txt) or ('"allOf"' in txt)
         parts = dict(p.split("=", 1) for p in m.split("|") if "=" in p)
         if m.startswith("error=timeout"):
             fh["model_gave_up"] = fh.get("model_gave_up", 0) + 1
-            continue
+            return
         if parts.get("frag") != "1":
             ck.violation("fragment-generator", "the model's fragb rejects a generated document of the fragment (or the driver failed: %s)" % m[:80],
                          {"stream": "NS", "schema": d, "theorem": "C06_spec_executable (membership)"}, found_input=False)
-            continue
+            return
         fh["in_fragment_by_the_model"] += 1
         ck.cov["traces_validated_against_impl"] += 1
         want = "".join("1" if J.accepts(d, x) else "0" for x in xs)
@@ -595,9 +656,17 @@ def fragment_part(ck, rng, hist, tier):
             ck.violation("spec-vs-validator", "the executable specification semb (coq/JsonFragB.v) and the reference validator disagree on instance %r" % (xs[i],),
                          {"stream": "NS", "schema": d, "instance": xs[i], "model": parts.get("sem"), "validator": want,
                           "theorem": "C06_spec_executable: the meaning [sem] of the fragment is not Draft 2020-12 on this input"}, found_input=False)
-            continue
+            return
         # the implementation's normal form on the same instances: the property itself
+        if fh.get("implementation_timeouts", 0) >= 4:
+            fh["skipped_after_repeated_timeouts"] = fh.get("skipped_after_repeated_timeouts", 0) + 1
+            return
         nf, err = run_normalize(d, True, False)
+        if err == "timeout" and parts.get("nf", "").startswith("ok:"):
+            fh["implementation_timeouts"] = fh.get("implementation_timeouts", 0) + 1
+            ck.violation("fragment-normalize-does-not-return", "normalize does not return within %d s on a document of the fragment for which the model returns at once" % TIME_LIMIT,
+                         {"stream": "NS", "schema": d, "theorem": "correspondence stream NS (the model returns, the implementation does not)"}, found_input=False)
+            return
         if err:
             fh["normalize_raises_library_exception"] += err.startswith("lib:")
             mnf = parts.get("nf", "")
@@ -605,13 +674,13 @@ def fragment_part(ck, rng, hist, tier):
                 ck.cov["disagreements_checked"] += 1
                 if not err.startswith("lib:"):
                     ck.violation("fragment-normalize-raises", "normalize raises %s on a document of the fragment" % err, {"stream": "NS", "schema": d})
-            continue
+            return
         got = "".join("1" if J.accepts(nf, x) else "0" for x in xs)
         if got != want:
             i = next(i for i in range(len(xs)) if got[i] != want[i])
             ck.violation("acceptance-changed:fragment", "normalize changes the verdict on %r: the schema says %s, its normal form says %s" % (
                 xs[i], want[i] == "1", got[i] == "1"), {"stream": "N", "schema": d, "full_merge": True, "instance": xs[i]})
-            continue
+            return
         mnf = parts.get("nf", "")
         if mnf == "timeout":
             fh["model_gave_up"] = fh.get("model_gave_up", 0) + 1
@@ -619,6 +688,12 @@ def fragment_part(ck, rng, hist, tier):
             ck.cov["disagreements_checked"] += 1
             ck.violation("correspondence-NS", "the model's normal form, evaluated keyword set by keyword set, disagrees with the validator (model %s, validator %s)" % (mnf[:60], want[:60]),
                          {"stream": "NS", "schema": d, "theorem": "C06_fragment_exec / correspondence stream NS"}, found_input=False)
+    for (d, xs), m in zip(meta, model):
+        try:
+            with doc_guard(40):
+                one_fragment_doc(d, xs, m)
+        except DocTimeout:
+            fh["gave_up_on_document"] = fh.get("gave_up_on_document", 0) + 1
     hist["fragment"] = fh
 
 
